@@ -1,13 +1,430 @@
 package main
 
-import "fmt"
+import (
+	"encoding/json"
+	"fmt"
+	"os"
+	"path/filepath"
+	"sort"
+	"strconv"
+	"strings"
+	"time"
+)
+
+type knownFinding struct {
+	Kind        string `json:"kind"` // finding | fixed
+	Property    string `json:"property"`
+	Obligation  string `json:"obligation"`
+	Witness     string `json:"witness,omitempty"`
+	Commit      string `json:"commit,omitempty"`
+	Description string `json:"description"`
+}
+
+type knownFile struct {
+	Findings []knownFinding `json:"findings"`
+}
+
+func loadKnown() knownFile {
+	var k knownFile
+	data, err := os.ReadFile(filepath.Join(verifDir, "known_findings.json"))
+	if err == nil {
+		_ = json.Unmarshal(data, &k)
+	}
+	return k
+}
+
+type oblSummary struct {
+	Name      string
+	Kind      string
+	Instances int
+	OK        bool
+	Verdict   string
+	Solver    string
+	MaxTime   float64
+	Worst     *Obligation
+	Desc      string
+	Tags      []string
+}
+
+func summarize(obls []*Obligation) []*oblSummary {
+	byName := map[string]*oblSummary{}
+	var order []*oblSummary
+	for _, o := range obls {
+		s := byName[o.Name]
+		if s == nil {
+			s = &oblSummary{Name: o.Name, Kind: o.Kind, OK: true, Desc: o.Desc, Tags: o.Tags}
+			byName[o.Name] = s
+			order = append(order, s)
+		}
+		s.Instances++
+		good := o.Res.Verdict == "unsat"
+		if o.Kind == "cover" {
+			good = o.Res.Verdict == "sat"
+		}
+		if good {
+			if s.Solver == "" {
+				s.Solver = o.Res.Solver
+			}
+		} else {
+			// prefer a sat instance (with model) as the representative failure
+			if s.OK || (s.Worst != nil && s.Worst.Res.Verdict != "sat" && o.Res.Verdict == "sat") {
+				s.Worst = o
+				s.Verdict = o.Res.Verdict
+			}
+			s.OK = false
+		}
+		if o.Res.Time > s.MaxTime {
+			s.MaxTime = o.Res.Time
+		}
+	}
+	return order
+}
 
 func cmdCheck(prop, tier string) int {
-	fmt.Println("not implemented yet")
-	return 2
+	start := time.Now()
+	if prop == "" {
+		fmt.Println("MACHINERY: -property required")
+		return 2
+	}
+	seed := 0
+	if s := os.Getenv("VERIF_SEED"); s != "" {
+		seed, _ = strconv.Atoi(s)
+	}
+	cfg := runCfg{tier: tier, timeoutMs: 30000, jobs: 7}
+	if tier == "thorough" {
+		cfg.timeoutMs = 120000
+		cfg.allSolver = true
+		cfg.jobs = 5
+	}
+	s, err := newSession(prop)
+	if err != nil {
+		fmt.Println("MACHINERY:", err)
+		return 2
+	}
+	x := s.x
+	var keys []string
+	var bindErrs []string
+	for _, k := range s.specs.Order {
+		c := s.specs.Contracts[k]
+		if c.Dep || c.Callback || !c.hasTag(prop) {
+			continue
+		}
+		if c.Trusted != "" {
+			continue
+		}
+		if x.lookupFunc(k) == nil {
+			if strings.Contains(k, ".") && !strings.HasPrefix(k, "(") {
+				continue // interface contract
+			}
+			bindErrs = append(bindErrs, "cannot bind contract: function "+k+" not found in /repo")
+			continue
+		}
+		keys = append(keys, k)
+	}
+	errs := append(bindErrs, s.verifyFuncs(keys)...)
+	// lemmas
+	lemmaObls := x.lemmaObligations(prop)
+	all := append(append([]*Obligation(nil), x.obls...), lemmaObls...)
+	t0 := time.Now()
+	discharge(all, cfg)
+	solveWall := time.Since(t0).Seconds()
+	sums := summarize(all)
+
+	known := loadKnown()
+	outDir := filepath.Join(verifDir, "out", prop)
+	os.MkdirAll(outDir, 0o755)
+
+	nObl, nDis, nCover, violations, knownHits := 0, 0, 0, 0, 0
+	backends := map[string]int{}
+	solverTime := 0.0
+	var slow []map[string]any
+	var samples []map[string]any
+	var violLines, knownLines []string
+	var machinery []string
+	for _, o := range all {
+		solverTime += o.Res.Time
+	}
+	for _, sm := range sums {
+		if sm.Kind == "cover" {
+			nCover++
+			if !sm.OK {
+				machinery = append(machinery, fmt.Sprintf("vacuity guard failed: %s is %s (contradictory precondition or assumptions?)", sm.Name, sm.Verdict))
+			}
+			continue
+		}
+		nObl++
+		if sm.OK {
+			nDis++
+			backends[sm.Solver]++
+		} else {
+			if sm.Verdict == "error" {
+				machinery = append(machinery, fmt.Sprintf("solver error on %s: %s", sm.Name, firstLines(sm.Worst.Res.Raw, 3)))
+				continue
+			}
+			// known finding?
+			matched := false
+			for _, k := range known.Findings {
+				if k.Kind == "finding" && k.Property == prop && k.Obligation == sm.Name {
+					knownLines = append(knownLines, fmt.Sprintf("KNOWN-FINDING: property=%s %s: %s", prop, sm.Name, k.Description))
+					matched = true
+					knownHits++
+					break
+				}
+			}
+			if !matched {
+				violations++
+				rp := filepath.Join(outDir, sanitize(sm.Name)+".replay")
+				found := writeReplay(rp, prop, sm, x)
+				line := fmt.Sprintf("VIOLATION property=%s replay=%s", prop, rp)
+				if !found {
+					line += " no-failing-input-found"
+				}
+				violLines = append(violLines, line)
+			}
+		}
+		slow = append(slow, map[string]any{"obligation": sm.Name, "time_s": round3(sm.MaxTime), "instances": sm.Instances})
+	}
+	sort.Slice(slow, func(i, j int) bool { return slow[i]["time_s"].(float64) > slow[j]["time_s"].(float64) })
+	if len(slow) > 8 {
+		slow = slow[:8]
+	}
+	for i, sm := range sums {
+		if len(samples) >= 6 {
+			break
+		}
+		if sm.Kind == "cover" || (i%7 != 0 && len(sums) > 12) {
+			continue
+		}
+		samples = append(samples, map[string]any{"obligation": sm.Name, "kind": sm.Kind, "what": sm.Desc, "instances": sm.Instances, "verdict": verdictWord(sm), "solver": sm.Solver, "time_s": round3(sm.MaxTime)})
+	}
+	for _, e := range errs {
+		machinery = append(machinery, e)
+	}
+
+	// assumptions, collected mechanically
+	var assumptions []string
+	assumptions = append(assumptions, "the VC generator gowp (Go semantics over go/ssa, /verif/gowp) and the SMT solvers are trusted")
+	assumptions = append(assumptions, "int, uint and uintptr are 64 bits wide (the only platform present)")
+	assumptions = append(assumptions, "memory exhaustion, stack overflow and nil-pointer dereferences are not modelled")
+	axSeen := map[string]bool{}
+	for _, o := range all {
+		body := strings.Join(o.Script.lines(), "\n")
+		for _, a := range axiomsUsed(body + o.Goal.S) {
+			if !axSeen[a] {
+				axSeen[a] = true
+				assumptions = append(assumptions, "axiom "+a)
+			}
+		}
+	}
+	var trusted []string
+	for _, k := range sortedKeys(x.usedContracts) {
+		c := s.specs.Contracts[k]
+		if c == nil {
+			continue
+		}
+		switch {
+		case c.Callback:
+			trusted = append(trusted, "callback contract (most general client) "+k)
+		case c.Dep:
+			trusted = append(trusted, "dependency contract (assumed) "+k)
+		case c.Trusted != "":
+			trusted = append(trusted, "trusted contract "+k+": "+c.Trusted)
+		case x.lookupFunc(k) == nil:
+			trusted = append(trusted, "interface contract "+k+" (implementations proved against it separately where claimed)")
+		default:
+			if !contains(keys, k) {
+				trusted = append(trusted, "contract of "+k+" used at call sites (its own proof belongs to the properties it is tagged with)")
+			}
+		}
+	}
+	var abstracted []string
+	for _, k := range sortedKeys(x.abstracted) {
+		abstracted = append(abstracted, fmt.Sprintf("%s (x%d): result unconstrained, assumed effect-free on the modelled state and not to panic", k, x.abstracted[k]))
+	}
+	var inlined []string
+	for _, k := range sortedKeys(x.inlined) {
+		inlined = append(inlined, k)
+	}
+	for _, l := range s.specs.Lemmas {
+		if l.Axiom {
+			assumptions = append(assumptions, "spec axiom "+l.Name+": "+l.Src)
+		}
+	}
+	assumptions = append(assumptions, extraAssumptions(prop)...)
+
+	ev := map[string]any{
+		"property_id": prop,
+		"tier":        tier,
+		"seed":        seed,
+		"level":       "proof",
+		"coverage": map[string]any{
+			"obligations":              nObl,
+			"discharged":               nDis,
+			"obligation_instances":     len(all) - nCover,
+			"checker_cmd":              fmt.Sprintf("/verif/bin/gowp check -property %s -tier %s", prop, tier),
+			"trusted_base":             trusted,
+			"functions_under_contract": keys,
+			"backends":                 backends,
+			"solver_time_s":            round3(solverTime),
+			"solver_wall_s":            round3(solveWall),
+			"slowest":                  slow,
+			"covers":                   nCover,
+			"paths":                    x.paths,
+			"state_merges":             x.merges,
+			"abstracted_calls":         abstracted,
+			"inlined_functions":        inlined,
+			"known_findings_hit":       knownHits,
+			"samples":                  samples,
+			"bounded":                  boundedNotes(prop),
+			"integers":                 "bit-vectors of the Go width (wrap-around modelled exactly); floats are IEEE-754 SMT FloatingPoint, RNE",
+			"composition_argument":     "DESIGN.md section 5, " + prop,
+		},
+		"assumptions": assumptions,
+		"wall_s":      round3(time.Since(start).Seconds()),
+		"violations":  violations,
+	}
+	if len(machinery) == 0 {
+		os.MkdirAll(filepath.Join(verifDir, "evidence"), 0o755)
+		data, _ := json.MarshalIndent(ev, "", " ")
+		os.WriteFile(filepath.Join(verifDir, "evidence", prop+".json"), data, 0o644)
+	}
+	for _, l := range knownLines {
+		fmt.Println(l)
+	}
+	for _, m := range machinery {
+		fmt.Println("MACHINERY:", m)
+	}
+	for _, l := range violLines {
+		fmt.Println(l)
+	}
+	fmt.Printf("%s %s: %d obligations (%d instances), %d discharged, %d violations, %d known findings, %d covers; %d functions; %.1fs\n",
+		prop, tier, nObl, len(all)-nCover, nDis, violations, knownHits, nCover, len(keys), time.Since(start).Seconds())
+	if len(machinery) > 0 {
+		return 2
+	}
+	if nObl == 0 {
+		fmt.Println("MACHINERY: no obligations generated for", prop)
+		return 2
+	}
+	if violations > 0 {
+		return 1
+	}
+	return 0
+}
+
+func verdictWord(sm *oblSummary) string {
+	if sm.OK {
+		return "discharged"
+	}
+	return "failed:" + sm.Verdict
+}
+
+func contains(l []string, s string) bool {
+	for _, v := range l {
+		if v == s {
+			return true
+		}
+	}
+	return false
+}
+
+func round3(f float64) float64 { return float64(int(f*1000+0.5)) / 1000 }
+
+// lemmaObligations turns the lemmas tagged with prop into standalone obligations.
+func (x *Exec) lemmaObligations(prop string) []*Obligation {
+	var out []*Obligation
+	for _, l := range x.specs.Lemmas {
+		if l.Axiom {
+			continue
+		}
+		tagged := false
+		for _, t := range l.Tags {
+			if t == prop {
+				tagged = true
+			}
+		}
+		if !tagged {
+			continue
+		}
+		st := &State{x: x, heap: map[string]Term{}, cells: map[*Cell]Val{}, ghost: map[string]Term{}, declared: map[string]bool{}}
+		env := &specEnv{x: x, st: st, vars: map[string]Val{}, where: "lemma " + l.Name}
+		cl := &Clause{File: l.File, Line: l.Line, Src: l.Src}
+		var goal Term
+		func() {
+			defer func() {
+				if r := recover(); r != nil {
+					goal = Term{S: "false", Sort: sBool}
+					x.errors = append(x.errors, fmt.Sprintf("lemma %s: %v", l.Name, r))
+				}
+			}()
+			goal = x.evalBool(env, l.Expr, cl)
+		}()
+		out = append(out, &Obligation{Name: "lemma/" + l.Name, Func: "lemma", Kind: "lemma", Tags: l.Tags, Script: st.script, Goal: goal, Desc: "lemma: " + l.Src})
+	}
+	return out
+}
+
+func extraAssumptions(prop string) []string { return propNotes[prop].assumptions }
+func boundedNotes(prop string) []string     { return propNotes[prop].bounded }
+
+type propNote struct {
+	assumptions []string
+	bounded     []string
+}
+
+var propNotes = map[string]propNote{}
+
+// writeReplay writes the replay file for a failed obligation and tries to reproduce the failure on the real
+// code. It returns true when a failing input was demonstrated on the real code.
+func writeReplay(path, prop string, sm *oblSummary, x *Exec) bool {
+	o := sm.Worst
+	var b strings.Builder
+	fmt.Fprintf(&b, "# gowp replay file\nproperty: %s\nobligation: %s\nkind: %s\nwhat: %s\nfunction: %s\nposition: %s\nverdict: %s (solver %s)\npath: %s\n", prop, sm.Name, sm.Kind, o.Desc, o.Func, o.Pos, o.Res.Verdict, o.Res.Solver, strings.Join(o.Path, " "))
+	model := parseModel(o.Res.Model)
+	if o.Res.Verdict == "sat" {
+		fmt.Fprintf(&b, "counterexample (inputs): %s\n", modelSummary(o))
+	}
+	found := false
+	if o.Res.Verdict == "sat" {
+		rep := x.tryReplay(o, model)
+		fmt.Fprintf(&b, "replay: %s\n", rep.Summary)
+		if rep.GoTest != "" {
+			fmt.Fprintf(&b, "--- go test (in-package, injected with -overlay) ---\n%s\n--- end go test ---\n", rep.GoTest)
+		}
+		if rep.Output != "" {
+			fmt.Fprintf(&b, "--- replay output ---\n%s\n--- end replay output ---\n", rep.Output)
+		}
+		found = rep.Failed
+	} else {
+		fmt.Fprintf(&b, "replay: the solver returned no model (%s); no failing input found\n", o.Res.Verdict)
+	}
+	fmt.Fprintf(&b, "--- solver output ---\n%s\n--- end solver output ---\n", firstLines(o.Res.Raw, 400))
+	fmt.Fprintf(&b, "--- query ---\n%s--- end query ---\n", buildQuery(o, true))
+	os.WriteFile(path, []byte(b.String()), 0o644)
+	return found
 }
 
 func cmdReplay(path string) int {
-	fmt.Println("not implemented yet")
-	return 2
+	data, err := os.ReadFile(path)
+	if err != nil {
+		fmt.Println("MACHINERY:", err)
+		return 2
+	}
+	s := string(data)
+	i := strings.Index(s, "--- go test (in-package, injected with -overlay) ---\n")
+	if i < 0 {
+		fmt.Println("replay file carries no executable test (no-failing-input-found); obligation and solver output:")
+		fmt.Println(firstLines(s, 12))
+		return 0
+	}
+	j := strings.Index(s, "\n--- end go test ---")
+	src := s[i+len("--- go test (in-package, injected with -overlay) ---\n") : j]
+	out, failed := runOverlayTest(src, "TestGowpReplay")
+	fmt.Println(out)
+	if failed {
+		fmt.Println("replay: the real code violates the obligation")
+		return 1
+	}
+	fmt.Println("replay: the real code satisfies the obligation on this input")
+	return 0
 }
